@@ -2,7 +2,7 @@ CONSTANTS
   Routes = {"/a", "/b"}
   Hosts = {0, 1}
   MCSizes = {0, 2, 4}
-  MCIds = {1, 2}
+  MCIds = {1}
   Payloads <- MCPayloads
   Limit = 4
   TimeLimit = 0
